@@ -8,7 +8,7 @@ from ..gen import Scenario, op, send
 
 ID = "C10"
 BUDGET = {"quick": 45, "thorough": 700}
-MAX_RUNS = {"quick": 1200, "thorough": 200000}
+MAX_RUNS = {"quick": 5000, "thorough": 200000}
 TECHNIQUE = "deterministic simulation: concurrent UDP sessions with uniquely tagged datagrams under seeded delay/reordering (no loss, no duplication) and an injected asynchronous receive error; multiset equality per session and destination"
 RULE = ("plans: entry (SOCKS5 UDP ASSOCIATE, reverse-UDP listener, HTTP CONNECT with Proxy-Protocol: udp) x middle hop (none; chained through the proxy's own http "
         "listener = inline frames; own quic listener with inline frames or QUIC datagrams incl. fragmentation; own socks listener) x direct exit to echoing origins; "
